@@ -354,8 +354,8 @@ NOT_YET = "check not built yet (framework under construction); will be claimed w
 # what the last session added to each check (appended to the claim text)
 ADDED = {
  "C01": " Every shape of the key argument, lists nested in lists included, is covered by theorems verIoF_spec / ver_spec / ver_stream_spec (verdict = specF for one-shot and for every chunking) and nested_all_demands_every_key (F29). Generators: algorithm named only in the unprotected header for every algorithm, that header stripped or relabelled; the ECDSA signature valid for the all-zero digest as mutation and under every single allocation fault; signature arrays paired with key arrays; vacuous and key-set cases streamed.",
- "C02": " direct_refuses_encrypted_key: dir / ECDH-ES recipients with a non-empty encrypted key are refused (F30). Generators: members extended (every byte bound), named and unnamed recipients of general-form tokens, tokens without protected header, protected header re-spelled, passwords differing behind a NUL.",
- "C04": " dir_joins_only_same_key (F32); wrp_gcmkw_spec now also yields that no shared header defines iv / tag (F28). Generators: aad without protected header, same-kind wrong keys, public-only recipient keys, content keys without alg, encoded empty protected header (F37).",
+ "C02": " direct_refuses_encrypted_key: dir / ECDH-ES recipients with a non-empty encrypted key are refused (F30). Generators: members extended (every byte bound), named and unnamed recipients of general-form tokens, tokens without protected header, protected header re-spelled, passwords differing behind a NUL, mutated tokens through jose_jwe_dec_io.",
+ "C04": " dir_joins_only_same_key (F32); wrp_gcmkw_spec now also yields that no shared header defines iv / tag (F28). Generators: aad without protected header, same-kind wrong keys, public-only recipient keys, content keys without alg, encoded empty protected header (F37), the combined streaming entry points jose_jwe_enc_io / jose_jwe_dec_io (same object as the one-shot call, every chunking).",
  "C05": " Generators: names in unprotected / per-recipient headers of the token handed in, general form, JWKSet containers, permissions under inference, asymmetric cross-declarations; names differing behind an embedded NUL are evaluated on every run and reported as the open known finding nul:c-string-compare.",
  "C06": " Generators: key_ops on public / partly private keys and with kty in other letter case, extras named like other types' private members, passwords searched in base64url form too.",
  "C08": " Generators: empty input as (NULL, 0), size queries on non-canonical text, raw NUL in decoded JSON, alphabet-only invalid text through the streamed decoder.",
